@@ -832,6 +832,15 @@ func propTable() map[string]*PropSpec {
 			q = append(q, c)
 			th = append(th, c)
 		}
+		// many messages for one future height (no per-height capacity in the statement)
+		for _, cnt := range []int{40, 150} {
+			c := rc(fmt.Sprintf("C17_Flood/count=%d", cnt), ".", "C17_Flood", map[string]int{"count": cnt})
+			c.RequireReach = []string{"C17.flood.done"}
+			th = append(th, c)
+			if cnt == 150 {
+				q = append(q, c)
+			}
+		}
 		lc := rc("C17_LeaveCommittee", ".", "C17_LeaveCommittee", nil)
 		lc.RequireReach = []string{"C17.leave.done"}
 		q = append(q, lc)
@@ -843,7 +852,7 @@ func propTable() map[string]*PropSpec {
 		t["C17"] = &PropSpec{ID: "C17", Quick: q, Thorough: th, LabelPrefixes: []string{"C17."},
 			Assumptions: []string{"messages are PREPAREs built with the real factory; the message number is carried in the (concrete) view field; reading of the ordering clause: 'before it' = before the node starts height H (DESIGN.md section 6/C17)"},
 			Bounds:      []string{"k operations (quick 3 and 4, thorough up to 5), each a symbolic choice of receive(message with symbolic 64-bit height, symbolic instance, symbolic sender byte) or advance(symbolic larger height); start height symbolic >= 1; optionally the message handler moves the node to the next view of the same height at symbolic deliveries"},
-			Outside:     []string{"sequences longer than 5 operations"},
+			Outside:     []string{"sequences longer than 5 operations (except the flood of 150 messages for one future height, symbolic heights)"},
 		}
 	}
 
